@@ -153,6 +153,14 @@ def _run_bg(case):
     bg = raw.copy(data=rng.uniform(1.0, 2.0, raw.shape) * case["scale"])
     bg = update_metadata(bg, noise_sd=0.07)
     df = raw.copy(data=rng.uniform(0.0, 0.15, raw.shape) * case["scale"]) if case["dark"] else None
+    if df is not None:
+        df = update_metadata(df, noise_sd=0.04)         # calibration frames carry their own (averaged) noise level
+    if int(case["seed"][-1]) % 2:
+        # a raw frame that does not know its medium yet, calibration frames that do: the result is the RAW frame's metadata
+        raw.attrs = dict(raw.attrs, medium_index=None)
+        bg = update_metadata(bg, medium_index=1.5)
+        if df is not None:
+            df = update_metadata(df, medium_index=1.5)
     resid, flags = {}, {}
     out = bg_correct(raw, bg, df) if df is not None else bg_correct(raw, bg)
     d = df.values if df is not None else 0.0
